@@ -33,7 +33,8 @@ D.LEAN_TY.update({
     'optexc': 'Option ε', 'aw': 'α', 'delta': 'Int', 'queue': 'Unit', 'taskset': 'Unit',
     # constructors / OutputFunc (second generated file)
     'str': 'String', 'argspec': 'α', 'evspec': 'ω', 'evtuple': 'τ', 'guardarg': 'γ', 'optguard': 'Option γ',
-    'optsd': 'Option ψ', 'int': 'Int', 'posargs': 'Unit', 'kwargs': 'Unit', 'vals': 'List ν', 'kwvals': 'List (String × ν)', 'fval': 'ν', 'fdata': 'δ',
+    'optsd': 'Option ψ', 'int': 'Int', 'posargs': 'Unit', 'kwargs': 'Unit',
+    'xargs': 'A', 'xkwargs': 'K', 'pool': 'π', 'partial': 'φ', 'rie': 'Unit', 'vals': 'List ν', 'kwvals': 'List (String × ν)', 'fval': 'ν', 'fdata': 'δ',
 })
 OPT = {'optdata': 'data?', 'opttask': 'task', 'optexc': 'exc', 'optval': 'val',      # optional tag -> inner tag
        'optguard': 'guardarg'}
@@ -75,6 +76,8 @@ class TrOA(TrProg):
             # the other optional locals hold objects that are always true (a Task, an exception, a result
             # that is never tested)
             return f'({text}).isSome'
+        if ty == 'xkwargs':
+            return f'{self.P}.kwargsNonEmpty {text}'
         if ty == 'taskset':
             self.reads_state = True
             return f'{self.P}.tasksNonEmpty st'
@@ -238,7 +241,7 @@ class TrOA(TrProg):
                 raise self.U('await ' + ast.unparse(v)[:60])
             saved = self.t.get('effects', ()), self.t.get('method_effects', ()), self.t.get('var_calls', ())
             self.t['effects'], self.t['method_effects'] = self.t.get('awaits', ()), self.t.get('await_methods', ())
-            self.t['var_calls'] = ()
+            self.t['var_calls'] = self.t.get('await_var_calls', ())
             try:
                 eff = super().effect(v, env)
             finally:
@@ -352,6 +355,22 @@ class TrOA(TrProg):
         s, rest = stmts[0], list(stmts[1:])
         if isinstance(s, ast.Pass):
             return self.block(rest, env, fall, ind, live)
+        if isinstance(s, ast.Return) and isinstance(s.value, ast.Await):
+            eff = self.effect(s.value, env)
+            if eff[1] != self.t['ret_type']:
+                raise self.U(f'return of a value of type {eff[1]}')
+            return f'{pad}M.bind ({eff[0]}) fun r_ =>\n{pad}M.ret r_'
+        if (isinstance(s, ast.With) and len(s.items) == 1 and isinstance(s.items[0].optional_vars, ast.Name)
+                and ast.unparse(s.items[0].context_expr) in self.t.get('contexts_as', {})):
+            enter, exit_, cty = self.t['contexts_as'][ast.unparse(s.items[0].context_expr)]
+            name = s.items[0].optional_vars.id
+            env2 = dict(env)
+            env2[name] = (name, cty)
+            if rest:
+                raise self.U('statements after a `with … as` block')
+            body = self.block(list(s.body), env2, fall, ind + 2, live)
+            return (f'{pad}M.bind ({enter.format(P=self.P)}) fun {name} =>\n{pad}M.tryFinally (\n{body}\n{pad}) '
+                    f'({exit_.format(P=self.P, x=name)})')
         if isinstance(s, ast.If) and not s.orelse and self.only_logging(s.body) and self.pure_debug_test(s.test):
             return self.block(rest, env, fall, ind, live)
         if isinstance(s, ast.AnnAssign) and s.value is None:
@@ -854,6 +873,17 @@ structure InitPrims (σ ε α ω τ γ ψ : Type) where
   createCtrlTask : M σ ε Unit Unit            -- `self._ctrl_task = self._create_monitored_task(self._ctrl_coro(), name=…)`
   setOutput : Int → M σ ε Unit Unit           -- `self.set_output(n)`
 
+/-- the leaves of `InExecutor.__call__`; A positional arguments, K keyword arguments, π pools, φ partial objects -/
+structure ExecPrims (σ ε ν A K π φ : Type) where
+  enterPool : M σ ε ν π                       -- `self._executor().__enter__()`
+  exitPool : π → M σ ε ν Unit                 -- `….__exit__(…)` (on every outcome)
+  kwargsNonEmpty : K → Bool                   -- `bool(kwargs)`
+  mkPartial : A → K → φ                       -- `functools.partial(self._func, *args, **kwargs)`
+  runPartial : π → φ → M σ ε ν ν              -- `await run_in_executor(pool, func)`
+  runPlain : π → A → M σ ε ν ν                -- `await run_in_executor(pool, self._func, *args)`
+  setFunc : M σ ε ν Unit                      -- `self._func = func`
+  setExecutor : M σ ε ν Unit                  -- `self._executor = executor`
+
 /-- the leaves of `OutputFunc._event_put / stop / init_regular`; δ event data, ν values, κ events;
     the value of `_event_put` is the pair (tag, exception | result) -/
 structure FuncPrims (σ ε δ ν κ : Type) where
@@ -935,6 +965,23 @@ def func_target(api, name, method, args, ret_pair):
     )
 
 
+def exec_target(api, name, method, args):
+    cls = api['sblocks2'].InExecutor
+    return dict(
+        name=name, doc=f'blocklib.sblocks2.InExecutor.{method}', node=lambda: api['fn_ast'](getattr(cls, method)),
+        P='P', prims='ExecPrims σ ε ν A K π φ', tyvars='{σ ε ν A K π φ : Type}', ret_lean='ν', ret_type='fval',
+        args=args, ignore=(),
+        opaque={'asyncio.get_running_loop().run_in_executor': 'rie'},
+        atoms={'func': ('()', 'callable'), 'executor': ('()', 'executorcls')} if method == '__init__' else {},
+        setattr={'self._func': ('{P}.setFunc', 'callable'), 'self._executor': ('{P}.setExecutor', 'executorcls')},
+        contexts_as={'self._executor()': ('{P}.enterPool', '{P}.exitPool {x}', 'pool')},
+        calls=[('functools.partial', [('path', 'self._func'), ('star', 'xargs'), ('starstar', 'xkwargs')],
+                '{P}.mkPartial {a[0]} {a[1]}', 'partial')],
+        await_var_calls=[('rie', [('ty', 'pool'), ('ty', 'partial')], '!{P}.runPartial {a[0]} {a[1]}', 'fval'),
+                         ('rie', [('ty', 'pool'), ('path', 'self._func'), ('star', 'xargs')], '!{P}.runPlain {a[0]} {a[1]}', 'fval')],
+    )
+
+
 def signature_defaults(fn):
     """keyword-only parameters of a constructor with the source text of their defaults (`<required>` if none)"""
     a = fn.args
@@ -971,6 +1018,8 @@ def main2(outfile, api):
         (func_target(api, 'ofunc_event_put', '_event_put', [('data', 'fdata')], True), translate),
         (func_target(api, 'ofunc_init_regular', 'init_regular', [], False), translate),
         (func_target(api, 'ofunc_stop', 'stop', [], False), translate),
+        (exec_target(api, 'inexecutor_init', '__init__', []), translate),
+        (exec_target(api, 'inexecutor_call', '__call__', [('args', 'xargs'), ('kwargs', 'xkwargs')]), translate),
     ]
     for t, tr in targets:
         api['emit'](L, t, tr, ': the statements in program order' if tr is translate else ': keyword-only parameters and their defaults')
